@@ -469,6 +469,25 @@ def run(ctx):
               lambda sub, mp: binding.dataset_wrap_rule(sub, "R13.6w", mp.all_functions), "xarray.Dataset(<Dataset>)")
     must_fire(ctx, "R13.6", {"m.py": "def callee(a, b=None, flag=False):\n    return a\n\ndef caller(a, flag):\n    return callee(a, flag)\n"},
               lambda sub, mp: binding.name_agreement_rule(sub, "R13.6", CallGraph(mp), mp.all_functions), "flag bound to another parameter")
+    # ---- R13.7 interpolating does not alter what is interpolated (effect analysis shared with C15): a second interpolation of the
+    # same object, or a look at the source afterwards, sees the original values
+    from .c15 import operand_rule
+    tg = []
+    for cq in ("wavespectra.spectrum.FrequencySpectrum", "wavespectra.spectrum.FrequencyDirectionSpectrum"):
+        c = p.get_class(cq)
+        for name in ("interpolate", "interpolate_frequency"):
+            m = c.find_method(name)
+            if m is not None:
+                tg.append((m, c))
+    for q in ("interpolate.dataset.interpolate_dataset_grid", "interpolate.dataset.interpolate_dataset_along_axis",
+              "interpolate.dataframe.interpolate_dataframe_time"):
+        # (interpolate_track_data_arrray normalises the caller's dict of *target* coordinates with np.atleast_1d in place; the targets are
+        # not the data being interpolated and their values are unchanged, so it is not listed here)
+        fn = p.functions.get(q)
+        if fn is not None:
+            tg.append((fn, None))
+    operand_rule(ctx, "R13.7", p, tg)
+    ctx.require_count("R13.7", 5)
     ctx.require_count("R13.1", 3)
     ctx.require_count("R13.2", 14)
     ctx.require_count("R13.3", 8)
